@@ -22,7 +22,7 @@ TARGETS = {
  "loglimiter/loglimiter.go": (None, ["C20"]),
  "recorder/recorderconfig.go": (None, ["C03", "C11"]),
  "headers/headerinfo.go": (None, ["C14", "C11"]),
- "cmd/thermal-recorder/cptvfilerecorder.go": (None, ["C11", "C10", "C12"]),
+ "cmd/thermal-recorder/cptvfilerecorder.go": (None, ["C11", "C10", "C12", "C04"]),
  "cmd/thermal-recorder/main.go": (["handleConn", "frameParser"], ["C14", "C11", "C13", "C16"]),
  "cmd/thermal-recorder/boson.go": (None, ["C13", "C11"]),
  "cmd/thermal-recorder/snapshot.go": (["newSnapshot", "newSnapshotRecording"], ["C16", "C17"]),
@@ -139,6 +139,19 @@ def phase2():
     if os.path.exists(p2):
         recs = [json.loads(l) for l in open(p2)]
         retry = os.environ.get("MUT_RETRY")  # e.g. HARNESS-ERROR: drop those records and run them again
+        rclass = os.environ.get("MUT_RETRY_CLASS")  # e.g. closed: run the mutants triaged as closed gaps again
+        if rclass:
+            tri = json.load(open(os.path.join(OUT, "triage.json")))
+            def cls(m):
+                for rule in tri.get(m["file"], []):
+                    if rule[0] <= m["line"] <= rule[1] and (len(rule) < 5 or re.search(rule[4], m["desc"])):
+                        return rule[2]
+                return ""
+            keep = [r for r in recs if not (r["verdict"] != "DETECTED" and cls(r) == rclass)]
+            with open(p2, "w") as f:
+                for r in keep:
+                    f.write(json.dumps(r) + "\n")
+            recs = keep
         if retry:
             keep = [r for r in recs if r["verdict"] != retry]
             with open(p2, "w") as f:
